@@ -132,6 +132,37 @@ class FakePlayer:
         self.played.append(bytes(data))
 
 
+def library_constants():
+    """Module-level string / bytes constants of the library (markers, names, formats), as bytes: a
+    dictionary for audio content - a block of audio that happens to equal one of them is still audio."""
+    import auditok.core as C
+    import auditok.io as IO
+    import auditok.util as U
+
+    out = set()
+    for mod in (W, C, IO, U):
+        for name, v in vars(mod).items():
+            if isinstance(v, str):
+                v = v.encode("latin-1", "ignore")
+            if isinstance(v, bytes) and 2 <= len(v) <= 48 and not name.startswith("__"):
+                out.add(v)
+    return sorted(out)
+
+
+def inject_constant(data, rec):
+    """rec['inject'] = [window, k]: window `window` of the recording becomes the k-th library constant
+    whose length is the size of a window in bytes (if there is one)."""
+    if not rec.get("inject"):
+        return data
+    wbytes = rec["B"] * rec["sw"] * rec["ch"]
+    fit = [c for c in library_constants() if len(c) == wbytes]
+    w, k = rec["inject"]
+    if not fit or (w + 1) * wbytes > len(data):
+        return data
+    c = fit[k % len(fit)]
+    return data[: w * wbytes] + c + data[(w + 1) * wbytes:]
+
+
 def make_logger(out, sched):
     """A logger for the tokenizer worker (what --debug gives it): every record it emits is kept and
     is a yield point, so other threads may run while the tokenizer is inside a log call."""
@@ -237,6 +268,7 @@ def _build(out, case, d, sched, jitter, endless):
     rec = case["audio"]
     sr, sw, ch, B = rec["sr"], rec["sw"], rec["ch"], rec["B"]
     data, thr = audio.synth(rec)
+    data = inject_constant(data, rec)
     aw = audio.window_arg(B, sr)
     out.dir = d
     out.data, out.thr = data, thr
@@ -249,6 +281,8 @@ def _build(out, case, d, sched, jitter, endless):
     if mr is not None:
         rkw["max_read"] = mr
         out.data = data[: vis * sw * ch]  # what a run to the end can see
+    if case.get("record"):
+        rkw["record"] = True  # a recording reader handed to the worker
     reader = auditok.AudioReader(src, block_dur=aw, **rkw)
     out.src = src
     saver = None
@@ -265,7 +299,8 @@ def _build(out, case, d, sched, jitter, endless):
         out.ignore_files |= {out.saver_path, out.saver_path + ".wav", out.saver_path + "(1).wav"}
         if case.get("stale_tmp") and ext != ".wav":
             _stale_wav(out.saver_path + ".wav", sr, sw, ch)
-        saver = W.StreamSaverWorker(reader, out.saver_arg, cache_size_sec=case["saver"]["cache"])
+        skw = {} if case["saver"]["cache"] is None else {"cache_size_sec": case["saver"]["cache"]}  # None: the default
+        saver = W.StreamSaverWorker(reader, out.saver_arg, **skw)
         top = saver
         out.wf_calls = []
         _orig_wf = saver._wfp.writeframes
@@ -276,8 +311,10 @@ def _build(out, case, d, sched, jitter, endless):
 
         saver._wfp.writeframes = _wf
     out.saver = saver
-    proxy = ReadLogProxy(top)
-    out.proxy = proxy
+    # the worker is handed the reader / the stream saver itself (what a program does); with a stream
+    # saver, half of the cases put a transparent logging proxy in between to see what the tokenizer got
+    proxy = ReadLogProxy(top) if (saver is not None and not case.get("direct")) else top
+    out.proxy = proxy if isinstance(proxy, ReadLogProxy) else None
     observers = []
     out.recs, out.regsave, out.joiner, out.printer = [], None, None, None
     out.player, out.command = None, None
